@@ -306,6 +306,7 @@ func loaded(spec *ukit.Spec) schema.Type {
 
 func oneOfSpecs() []*ukit.Spec {
 	out := ukit.OneOfSpecs()
+	out = append(out, ukit.OneOfAllSpecs()...) // members with every leaf kind; members under the key 0 / ""
 	// one-ofs over references inside a scope
 	out = append(out, ukit.ScopeSpecs()[4])
 	return out
@@ -357,6 +358,10 @@ func main() {
 			}
 			objs := objects(tier)
 			for i := b.Lo; i < b.Hi; i++ {
+				if ux.Stop() {
+					res.Capped = true
+					break
+				}
 				ux.Progress(i - b.Lo)
 				g := objs[i]
 				spec := g.spec()
